@@ -858,7 +858,7 @@ theorem countPrefix_le_length (ch : Char) : ∀ (L : Str) (lim : Option Nat), co
       have := countPrefix_le_length ch L (some (n + 1 - 1))
       split <;> simp only [List.length_cons] <;> omega
 
-theorem spanLen_append (p : Char → Bool) (R : Str) (hR : ∀ c, R.head? = some c → p c = false) :
+theorem spanLen_append_nohead (p : Char → Bool) (R : Str) (hR : ∀ c, R.head? = some c → p c = false) :
     ∀ (L : Str), spanLen p (L ++ R) = spanLen p L
   | [] => by
     cases R with
@@ -866,7 +866,7 @@ theorem spanLen_append (p : Char → Bool) (R : Str) (hR : ∀ c, R.head? = some
     | cons c r => simp [spanLen, hR c rfl]
   | c :: L => by
     simp only [List.cons_append, spanLen]
-    rw [spanLen_append p R hR L]
+    rw [spanLen_append_nohead p R hR L]
 
 theorem spanLen_le_length (p : Char → Bool) : ∀ (L : Str), spanLen p L ≤ L.length
   | [] => by simp [spanLen]
@@ -881,7 +881,7 @@ def NlHead (R : Str) : Prop := ∀ c, R.head? = some c → c = '\n'
 theorem olMarker_append {R : Str} (hR : NlHead R) (L : Str) :
     olMarker (L ++ R) = (olMarker L).map (fun mr => (mr.1, mr.2 ++ R)) := by
   have hs : spanLen isDecimal (L ++ R) = spanLen isDecimal L :=
-    spanLen_append _ R (fun c hc => by rw [hR c hc]; decide) L
+    spanLen_append_nohead _ R (fun c hc => by rw [hR c hc]; decide) L
   have hd := spanLen_le_length isDecimal L
   simp only [olMarker, hs]
   by_cases hlt : spanLen isDecimal L < L.length
